@@ -17,21 +17,42 @@ func (c *Ctx) downwardScan(fs *ast.ForStmt) (top string, ok bool) {
 		return "", false
 	}
 	iv := c.objOf(as.Lhs[0].(*ast.Ident))
-	be, isB := stripParens(as.Rhs[0]).(*ast.BinaryExpr)
-	if !isB || be.Op != token.SUB {
+	// i := top-1; i >= 0   or   d := top; d > 0 (indexing with d-1)
+	start := int64(0) // what is subtracted from top
+	if be, isB := stripParens(as.Rhs[0]).(*ast.BinaryExpr); isB && be.Op == token.SUB {
+		k, isC := c.intConst(be.Y)
+		if !isC || k != 1 {
+			return "", false
+		}
+		start = 1
+		top = c.fieldPath(be.X)
+	} else {
+		top = c.fieldPath(as.Rhs[0])
+	}
+	atoms, pure := c.nnf(fs.Cond, true, nil).conjuncts()
+	if fs.Cond == nil || !pure || len(atoms) != 1 {
 		return "", false
 	}
-	if k, isC := c.intConst(be.Y); !isC || k != 1 {
+	b, isB := c.boundOf(atoms[0])
+	if !isB || !c.isObj(b.X, iv) || b.Lo == nil || b.Hi != nil || *b.Lo != 1-start {
 		return "", false
 	}
-	top = c.fieldPath(be.X)
-	cond, isC := stripParens(fs.Cond).(*ast.BinaryExpr)
-	if !isC || !c.isObj(cond.X, iv) {
-		return "", false
-	}
-	k, isK := c.intConst(cond.Y)
-	if !isK || !((cond.Op == token.GEQ && k == 0) || (cond.Op == token.GTR && k == -1)) {
-		return "", false
+	if start == 0 {
+		// every use of the induction variable as an index is iv-1
+		okIdx := true
+		ast.Inspect(fs.Body, func(n ast.Node) bool {
+			ix, ok := n.(*ast.IndexExpr)
+			if !ok {
+				return true
+			}
+			if c.isObj(ix.Index, iv) {
+				okIdx = false
+			}
+			return true
+		})
+		if !okIdx {
+			return "", false
+		}
 	}
 	post, isP := fs.Post.(*ast.IncDecStmt)
 	if !isP || post.Tok != token.DEC || !c.isObj(post.X, iv) {
@@ -235,25 +256,38 @@ func ruleDeclareThenInit(c *Ctx, r *Report, rule string) {
 		r.check(okScan, rule, "resolveLocal/innermost-first", "scans the locals from the newest downward and returns the first match", "resolveLocal must scan from localCount-1 down to 0 and return at the first match", c.pos(fd.Pos()))
 		r.check(okSkip, rule, "resolveLocal/skip-uninitialised", "a local with depth -1 is skipped", "resolveLocal must skip locals whose depth is -1 (declared, not yet initialised)", c.pos(fd.Pos()))
 	}
-	if _, fd := c.find("parser.markInitialized"); fd == nil {
-		r.bad(rule, "markInitialized", "function not found", "")
-	} else {
-		ok := false
-		if len(fd.Body.List) == 1 {
-			if as, isA := fd.Body.List[0].(*ast.AssignStmt); isA && len(as.Lhs) == 1 && c.fieldPath(as.Rhs[0]) == "<parser>.scope.depth" {
-				if sel, isS := as.Lhs[0].(*ast.SelectorExpr); isS && sel.Sel.Name == "depth" {
-					if ix, isI := sel.X.(*ast.IndexExpr); isI && c.fieldPath(ix.X) == "<parser>.scope.locals" {
-						if be, isB := stripParens(ix.Index).(*ast.BinaryExpr); isB && be.Op == token.SUB && c.fieldPath(be.X) == "<parser>.scope.localCount" {
-							if k, isC := c.intConst(be.Y); isC && k == 1 {
-								ok = true
-							}
-						}
-					}
-				}
-			}
+	// mark-initialised: wherever it is written, the store is locals[localCount-1].depth = scope.depth
+	marks, badMark := 0, ""
+	for _, it := range c.sortedDecls() {
+		if it.fd.Body == nil || it.obj.Pkg() == nil || it.obj.Pkg().Path() != bclPath {
+			continue
 		}
-		r.check(ok, rule, "markInitialized", "locals[localCount-1].depth = scope.depth", "markInitialized must set the depth of the newest local to the current scope depth", c.pos(fd.Pos()))
+		ast.Inspect(it.fd.Body, func(n ast.Node) bool {
+			as, isA := n.(*ast.AssignStmt)
+			if !isA || len(as.Lhs) != 1 || len(as.Rhs) != 1 {
+				return true
+			}
+			sel, isS := stripParens(as.Lhs[0]).(*ast.SelectorExpr)
+			if !isS || sel.Sel.Name != "depth" {
+				return true
+			}
+			ix, isI := stripParens(sel.X).(*ast.IndexExpr)
+			if !isI || !strings.HasSuffix(c.fieldPath(ix.X), ".locals") {
+				// through a pointer to the slot (local := &locals[n]; local.depth = -1) is addLocal's form
+				return true
+			}
+			if k, isC := c.intConst(as.Rhs[0]); isC && k == -1 {
+				return true // declaration
+			}
+			if c.isMarkInitTarget(as.Lhs[0]) && strings.HasSuffix(c.fieldPath(as.Rhs[0]), ".depth") && !strings.Contains(c.fieldPath(as.Rhs[0]), "locals") {
+				marks++
+			} else {
+				badMark = c.pos(as.Pos())
+			}
+			return true
+		})
 	}
+	r.check(marks >= 1 && badMark == "", rule, "markInitialized", "locals[localCount-1].depth = scope.depth", "marking a local initialised must set the depth of the newest local to the current scope depth (offending store: "+badMark+")", badMark)
 }
 
 // ruleDupScope: the duplicate check of declVar.
@@ -463,10 +497,13 @@ func ruleFieldAccess(c *Ctx, r *Report, rule string) {
 	if okScan {
 		top, ok := c.downwardScan(scans[0])
 		okScan = ok && top == "<vm>.blockTos"
-		// returns inside the loop on a hit
+		// leaves the loop on a hit (return, or break followed by the return of what was found)
 		ret := false
 		ast.Inspect(scans[0].Body, func(x ast.Node) bool {
 			if _, ok := x.(*ast.ReturnStmt); ok {
+				ret = true
+			}
+			if bs, ok := x.(*ast.BranchStmt); ok && bs.Tok == token.BREAK && bs.Label == nil {
 				ret = true
 			}
 			return true
